@@ -56,7 +56,12 @@ func UnsetFlag(f *asn1.BitString, i int) {
 }
 
 // IsFlagSet tests if a flag is set in the ASN1 BitString.
+// A flag beyond the end of the BitString is not set: a peer may legitimately send (or an attacker may
+// choose to send) fewer than 32 bits.
 func IsFlagSet(f *asn1.BitString, i int) bool {
+	if i < 0 || i/8 >= len((*f).Bytes) {
+		return false
+	}
 	//Which byte?
 	b := i / 8
 	//Which bit in byte
